@@ -163,6 +163,89 @@ def e24(rep, src):
         rep.instance("E24", "no-override", {"overrides": 0}, nontrivial=False)
 
 
+def e28(rep, src):
+    """BigQuery has no bare UNION / INTERSECT / EXCEPT: the set quantifier it is given must be spelled ALL or DISTINCT."""
+    from .core import find, show
+
+    rep.rule(
+        "E28",
+        "BigQueryTranslator::set_operation: the `set_quantifier` of the `SetExpr::SetOperation` it builds is, on every arm of the local def-use chain that computes it, `SetQuantifier::All` "
+        "(for the input `All` only) or `SetQuantifier::Distinct` (for every other input)",
+        floor=2,
+        necessary="BigQuery rejects `SELECT .. UNION SELECT ..` without ALL or DISTINCT (syntax error): a relation whose set node has the default quantifier `None` is translated into SQL the target "
+        "dialect does not accept; ALL rendered as DISTINCT (or the converse) changes the rows returned",
+    )
+    fs = [f for f in src.find_fns(name="set_operation", self_ty="BigQueryTranslator") if f.file == "dialect_translation/bigquery.rs" and f.body and not f.test]
+    key = "BigQueryTranslator::set_operation"
+    if len(fs) != 1:
+        rep.violation("E28", key, "BigQueryTranslator no longer overrides `set_operation`: the trait default copies the quantifier of the relation, `None` included (bare UNION)", "src/dialect_translation/bigquery.rs")
+        return
+    f = fs[0]
+    lits = [n for n in find(f.body, "struct") if show(n["path"], 0).split("::")[-1] == "SetOperation"]
+    if len(lits) != 1:
+        rep.undecidable("E28", key, "expected one `SetExpr::SetOperation { .. }` literal, found %d" % len(lits), f.where())
+        return
+    fld = [fl for fl in lits[0]["fields"] if fl.get("name") == "set_quantifier"]
+    if len(fld) != 1:
+        rep.undecidable("E28", key, "the SetOperation literal has no `set_quantifier` field", f.where())
+        return
+    lets = {}
+    for st in find(f.body, "let"):
+        if st.get("init") is not None and st["pat"].get("k") == "ident":
+            lets.setdefault(st["pat"]["name"], []).append(st["init"])
+    params = [p["pat"]["name"] for p in f.params if not p.get("self") and p["pat"]["k"] == "ident"]
+
+    def leaves(e, pat, depth=0):
+        """[(input pattern or None, leaf expression)] of the value of e"""
+        while e["k"] in ("paren",):
+            e = e["e"]
+        if depth > 6:
+            return [(pat, e)]
+        if e["k"] == "block" and e["stmts"] and e["stmts"][-1]["k"] == "expr" and not e["stmts"][-1].get("semi"):
+            return leaves(e["stmts"][-1]["e"], pat, depth + 1)
+        if e["k"] == "match":
+            out = []
+            for a in e["arms"]:
+                out += leaves(a["body"], show(a["pat"], 0) + (" if .." if a.get("guard") else ""), depth + 1)
+            return out
+        if e["k"] == "if":
+            import re as _re
+
+            c = show(e["cond"], 0).replace(" ", "")
+            # which input the two branches stand for, when the condition is a plain test of the input against `All`
+            if _re.fullmatch(r"matches!\(\w+,[\w:]*\bAll\)", c) or _re.fullmatch(r"\w+==[\w:]*\bAll", c):
+                tags = ("[is] ::All", "[is not] ::other")
+            elif _re.fullmatch(r"!matches!\(\w+,[\w:]*\bAll\)", c) or _re.fullmatch(r"\w+!=[\w:]*\bAll", c):
+                tags = ("[is not] ::other", "[is] ::All")
+            else:
+                tags = ("?if " + c[:60], "?else of " + c[:60])
+            out = leaves(e["then"], tags[0], depth + 1)
+            if e.get("else") is not None:
+                out += leaves(e["else"], tags[1], depth + 1)
+            else:
+                out.append((pat, e))
+            return out
+        if e["k"] in ("path", "ident"):
+            nm = show(e, 0)
+            if nm in lets and len(lets[nm]) == 1:
+                return leaves(lets[nm][0], pat, depth + 1)
+        return [(pat, e)]
+
+    lv = leaves(fld[0]["e"], None)
+    rep.instance("E28", key, {"fn": key, "set_quantifier": show(fld[0]["e"], 80), "leaves": [[p, show(x, 60)] for p, x in lv]})
+    for i, (pat, x) in enumerate(lv):
+        txt = show(x, 0)
+        last = txt.split("::")[-1]
+        k = "%s@%s" % (key, (pat or "value").split("::")[-1])
+        rep.instance("E28", k, {"input": pat, "emitted": txt})
+        if x["k"] not in ("path", "ident") or last not in ("All", "Distinct") or txt in params:
+            rep.violation("E28", k, "for input `%s` the quantifier handed to BigQuery is `%s`, not SetQuantifier::All / SetQuantifier::Distinct: a bare `UNION` (quantifier None) or a *ByName form is a syntax error in BigQuery" % (pat, show(x, 80)), f.where())
+            continue
+        pat_last = (pat or "").split(" if ")[0].split("::")[-1]
+        if (pat_last == "All") != (last == "All") and pat is not None and not pat.startswith("?"):
+            rep.violation("E28", k, "for input `%s` BigQuery is given `%s`: ALL and DISTINCT are exchanged (duplicates are dropped or kept against the relation's quantifier)" % (pat, txt), f.where())
+
+
 def run(rep):
     rep.explanation = (
         "Per-dialect table agreement. The renderer side (operator variant -> translator method (override or default) -> SQL spelling) is read from the type-resolved MIR; the reader side "
@@ -360,6 +443,7 @@ def run(rep):
     c08.e22(rep, src)
     c08.e23(rep, src)
     e24(rep, src)
+    e28(rep, src)
     rep.assume("the reader entry of a dialect is QueryToRelationTranslator::try_function (its override, else the trait default which special-cases log / ln / md5 and defers to sql/expr.rs)")
     rep.assume("sqlparser source in ~/.cargo/registry is the version pinned in /repo/Cargo.lock")
 
